@@ -44,6 +44,8 @@ struct verif_in {
 	int64_t b_size, b_mtime; int b_nsec; unsigned b_flag; uint64_t b_inode;
 	/* stamp index of the two disks */
 	int stamp_hit[2], full_hashed[2];
+	/* scan.link */
+	int link_found, same_target, lkind_rec, lkind_now;
 	/* scan.emptydir */
 	int dir_found;
 	unsigned dflag;
@@ -418,6 +420,69 @@ void h_scan_emptydir(void)
 	else
 		VERIF_ASSERT(g_dir_alloc == 1 && (DIRNEW.flag & FILE_IS_PRESENT) && tommy_list_head(&SC.dir_insert_list) == &DIRNEW.nodelist && DIRNEW.nodelist.next == 0,
 			"a new empty directory is recorded once, marked present");
+	VERIF_CANARY();
+}
+#endif
+
+
+/* ---------------------------------------------------------------- scan_link (whole body extracted): symbolic links and hard links */
+#ifdef VERIF_SCANLINK
+static struct snapraid_link LNK0, LNKNEW;
+static unsigned g_link_alloc;
+static char TGT_A[] = "x", TGT_B[] = "y";
+static void *l_search(tommy_hashdyn *h, tommy_search_func *cmp, const void *arg, tommy_hash_t hash)
+{
+	(void)cmp; (void)hash;
+	VERIF_ASSERT(h == &DISK0.linkset && arg == (const void *)SUB, "the link index of the disk is searched for this path");
+	return IN.link_found ? &LNK0 : 0;
+}
+static struct snapraid_link *l_alloc(const char *sub, const char *linkto, unsigned link_flag) { ++g_link_alloc; LNKNEW.sub = (char *)sub; LNKNEW.linkto = (char *)linkto; LNKNEW.flag = link_flag; return &LNKNEW; }
+static char *l_strdup(const char *s) { return (char *)s; }
+static void l_free(void *p) { (void)p; }
+#define tommy_hashdyn_search l_search
+#define link_alloc l_alloc
+#define strdup_nofail l_strdup
+#define free l_free
+#define esc_tag v_esc
+#define fmt_term v_fmt
+#include "region_scan_link.c"
+#undef tommy_hashdyn_search
+#undef link_alloc
+#undef strdup_nofail
+#undef free
+#undef esc_tag
+#undef fmt_term
+
+void h_scan_link(void)
+{
+	unsigned now_kind, rec_kind, total0, total1;
+	int unchanged;
+	VERIF_INPUTS();
+	now_kind = IN.lkind_now ? FILE_IS_HARDLINK : FILE_IS_SYMLINK;
+	rec_kind = IN.lkind_rec ? FILE_IS_HARDLINK : FILE_IS_SYMLINK;
+	SC.state = &ST;
+	SC.disk = &DISK0;
+	SC.need_write = 0;
+	SC.count_equal = IN.cnt[0] % 1000; SC.count_move = IN.cnt[1] % 1000; SC.count_restore = IN.cnt[2] % 1000; SC.count_change = IN.cnt[3] % 1000;
+	SC.count_remove = IN.cnt[4] % 1000; SC.count_insert = IN.cnt[5] % 1000; SC.count_copy = IN.cnt[6] % 1000;
+	total0 = SC.count_equal + SC.count_move + SC.count_restore + SC.count_change + SC.count_remove + SC.count_insert + SC.count_copy;
+	tommy_list_init(&SC.link_insert_list);
+	LNK0.sub = SUB;
+	LNK0.linkto = TGT_A;
+	LNK0.flag = rec_kind; /* not present yet: a path is met once per scan */
+	g_link_alloc = 0;
+	region_scan_link(&SC, IN.is_diff, SUB, IN.same_target ? TGT_A : TGT_B, now_kind);
+	total1 = SC.count_equal + SC.count_move + SC.count_restore + SC.count_change + SC.count_remove + SC.count_insert + SC.count_copy;
+	unchanged = IN.same_target && now_kind == rec_kind;
+	VERIF_ASSERT(total1 == total0 + 1, "exactly one change counter per link");
+	if (!IN.link_found)
+		VERIF_ASSERT(SC.count_insert == IN.cnt[5] % 1000 + 1 && g_link_alloc == 1 && (LNKNEW.flag & FILE_IS_PRESENT) && LNKNEW.linkto == (IN.same_target ? TGT_A : TGT_B) && tommy_list_head(&SC.link_insert_list) == &LNKNEW.nodelist,
+			"a new link is added with the target it has now");
+	else if (unchanged)
+		VERIF_ASSERT(SC.count_equal == IN.cnt[0] % 1000 + 1 && (LNK0.flag & FILE_IS_PRESENT) && LNK0.linkto == TGT_A && g_link_alloc == 0 && !SC.need_write, "a link with the recorded target and kind is equal");
+	else
+		VERIF_ASSERT(SC.count_change == IN.cnt[3] % 1000 + 1 && (LNK0.flag & FILE_IS_PRESENT) && SC.need_write && LNK0.linkto == (IN.same_target ? TGT_A : TGT_B) && (LNK0.flag & FILE_IS_LINK_MASK) == now_kind,
+			"a link whose target or kind changed is an update: the record takes the new target and kind and must be saved");
 	VERIF_CANARY();
 }
 #endif
